@@ -71,6 +71,16 @@ CHECKS = {
          "Exhaustive enumeration of all interleavings of user deposits (credited, refunded for a malformed recipient, refunded after a failing hook), L2 transfers and withdrawals, relays (incl. duplicates and delays), proposals built from recorded withdrawals, challenges with re-proposal, time advances and claims, over two denoms; in every state escrow_L1 = supply_L2 + pending deposits + unpaid recorded withdrawals per denom; from every distinct state a deterministic drain must make every claim succeed exactly once (second claim fails), escrow = L2 supply, users' combined holdings = initial.",
          "Trusted: Go toolchain, cosmos-sdk store/auth/bank, world construction, faithful-relayer harness (queues only from parsed events), independent tree builder. Bounded: depth 6 (quick) / 8 (thorough).",
          "DESIGN.md §6 C08"),
+ "C19": ("model_checking",
+         "explicit-state IDDFS over real handlers + real BridgeHook, full metadata probe matrix per state",
+         "Exhaustive enumeration of create / update-metadata / update-challenger / channel-send histories over two bridges, two challengers, three channels (one missing) with the real hook.BridgeHook wired over store-backed channel/perm keepers (they branch and roll back with the transaction); in every explored state the full 19-entry metadata menu (documented lists, unknown fields, duplicate and differently-cased keys, null, wrong types, non-JSON, empty, oversized) is probed through CreateBridge and UpdateMetadata. An independent metadata reader classifies P/N/A; oracle: any admin change goes to the bridge's challenger, only on listed channels, only on channels that existed with next-send-sequence 1 and no admin (or were already his); P and success => all listed channels administered by the challenger; failure => admin table unchanged; N => never touched; challenger update hands over exactly the listed channels.",
+         "Trusted: as C11; channel and ibc-perm keepers are a harness KV store (IsTaken = an admin is set). Bounded: depth 4 (quick) / 5 (thorough).",
+         "DESIGN.md §6 C19"),
+ "C20": ("model_checking",
+         "exhaustive input matrices on the real ante/lane code + probe family in every state of C06's search",
+         "Fee floor: every (node price vector, chain price vector, gas, fee coin set at/around the floor, mode) of the menus is evaluated on the real MempoolFeeChecker and CombinedMinGasPrices against an exact math/big.Rat oracle (admitted <=> all floors zero or some positive-floor denom paid >= ceil(gas*max(node,chain)); nothing enforced outside checking). Lanes: every message-list/nesting shape for the system lane and every whitelist x payer x granter case for the free lane. Redundant relay: in every state of C06's system, every deposit-message list of length <= 3 over {stale, next, next+1, gap, stranger} with and without a non-deposit message in CheckTx/ReCheckTx/DeliverTx/simulate on the real RedundantBridgeDecorator.",
+         "Trusted: as C06; tx objects built with the real TxConfig builder. Bounded: menus as listed in the evidence (chain price menu reduced in the quick tier).",
+         "DESIGN.md §6 C20"),
 }
 NOT_YET = {}
 
